@@ -80,6 +80,11 @@ def run_oracles(prog, meta, sessions):
                     if all('abort' not in x for x in s.fresh_all):
                         suffix, why = stale_owner_status(s, k, prev_nodes)
                         out.append(('C20', 'spurious-' + k + suffix, '%s: incremental build aborted with %s but from-scratch builds of all known tasks (two orders) in the current state succeed%s' % (where, k, why)))
+                elif had_abort and s.fresh_all is not None and prog.kind in ('inject', 'panic'):
+                    # C19: after an abort, a later build may abort again only for a violation that still exists
+                    if all('abort' not in x for x in s.fresh_all):
+                        suffix, why = stale_owner_status(s, k, prev_nodes)
+                        out.append(('C19', 'spurious-' + k + '-after-abort' + suffix, '%s: after an earlier abort, the incremental build aborted with %s although from-scratch builds of all known tasks (two orders) in the current state succeed%s' % (where, k, why)))
 
         # ---- C01 / C19: incremental == from scratch
         if q_only and not ab and s.fresh_ops is not None and prog.kind in ('wf', 'multi'):
@@ -125,15 +130,36 @@ def run_oracles(prog, meta, sessions):
         if is_bu:
             sched = set()
             have = set(completed)
+            depth = 0
+            started = set()
             for e in s.events:
                 f = e.split()
                 if f[0] == 'ST': sched.add(int(f[1]))
-                elif f[0] == 'XE': have.add(int(f[1]))
+                elif f[0] == 'XE':
+                    have.add(int(f[1])); depth = max(0, depth - 1)
                 elif f[0] == 'XS':
                     t = int(f[1])
                     if t not in sched and t in have:
                         out.append(('C04', 'unscheduled-execution', '%s: task %d executed in a bottom-up build without being scheduled or new' % (where, t)))
-                    sched.discard(t)
+                    # ordering: a task popped from the queue (not nested in another execution) must not depend on another task
+                    # that is still scheduled.  Dependencies are read from the store as the previous session left it, along
+                    # paths through tasks that have not started in this build (their recorded edges cannot have changed).
+                    if depth == 0 and not ab and prev_nodes:
+                        seen = set(); st = ['T%d' % t]; hit = None
+                        while st and hit is None:
+                            x = st.pop()
+                            for (_k, y, _c, _s) in prev_nodes.get(x, {}).get('outs', []):
+                                if not str(y).startswith('T') or y in seen: continue
+                                seen.add(y)
+                                try: yi = int(str(y)[1:])
+                                except ValueError: continue
+                                if yi in sched and yi != t:
+                                    hit = yi; break
+                                if yi not in started:
+                                    st.append(y)
+                        if hit is not None:
+                            out.append(('C04', 'dependency-order', '%s: scheduled task %d was executed from the queue before the scheduled task %d it (transitively) depends on' % (where, t, hit)))
+                    sched.discard(t); started.add(t); depth += 1
 
         # ---- C07: no re-entry
         stack = []
@@ -160,7 +186,17 @@ def run_oracles(prog, meta, sessions):
                 for w in writers[:1]:
                     for rd in readers:
                         if rd != w and w not in P.reach(nodes, rd):
-                            out.append(('C05', 'reader-without-path', '%s: build returned although %s reads %s written by %s without (transitively) requiring it' % (where, rd, name, w)))
+                            # the recorded O6 pattern arises WITHOUT the reader or the writer executing in the session (an
+                            # intermediate task drops its require); if one of them executed here, the read or the write itself
+                            # went undiagnosed in this very top-down session -- a different violation
+                            ran = set(counts.keys())
+                            def tid(nm):
+                                try: return int(str(nm).lstrip('T'))
+                                except ValueError: return None
+                            if (not is_bu) and (tid(rd) in ran or tid(w) in ran):
+                                out.append(('C05', 'hidden-dependency-undetected', '%s: build returned although %s reads %s written by %s without (transitively) requiring it, and the reader or the writer executed in this session' % (where, rd, name, w)))
+                            else:
+                                out.append(('C05', 'reader-without-path', '%s: build returned although %s reads %s written by %s without (transitively) requiring it' % (where, rd, name, w)))
         # harness-side record: who wrote / read what in its latest completed execution (across the history)
         for e in s.execlog:
             f = e.split()
